@@ -160,6 +160,57 @@ def last_vals(it):
     return env
 
 
+def _alts(v):
+    a = v.single_atom() if isinstance(v, Form) else None
+    if a and a[0] == "phi" and v == Form.atom(a):
+        for x in a[2]:
+            yield from _alts(x)
+    elif a and a[0] == "fn" and a[1] == "ifexp" and len(a[2]) == 3 and v == Form.atom(a):
+        yield from _alts(a[2][1])
+        yield from _alts(a[2][2])
+    else:
+        yield v
+
+
+def rule_step_control(ctx):
+    """C16.6: an adaptive Runge-Kutta step is sized from the local error estimate alone; at scipy's default tolerance (rtol 1e-3)
+    with no bound on the step it grows over the flat part of a user profile and a localised feature is stepped over.  The clause is
+    the necessary condition only: the call is not left at those defaults - a step bound below the span, or a relative tolerance
+    below the default, is given as a constant - on EVERY path to the solver and for every alternative of a conditionally chosen
+    setting, with a user callable as the profile (the interpretation that exercises the profile-dependent branches)"""
+    pkg = ctx.pkg
+    fi = pkg.func("devices.FBG")
+    ass_c = dict(FBG_ASS)
+    ass_c.update({k: ("truth", v) for k, v in {"fc": True, "landa_D": False, "dneff": False, "vdneff": True, "kL": True, "L": False, "N": False}.items()})
+    ass_c["apodization"] = ("inst", "numpy.poly1d")
+    it = Interp(pkg, param_classes={"input": "optical_signal"}, assumptions=ass_c, no_inline=("tau_g", "dispersion", "rcos", "si", "db"))
+    it.domain_pred = lambda callee, args: True if callee in ("callable", "builtins.callable") and args and isinstance(args[0], Form) and args[0] == S("apodization") else None
+    it.stop_at_calls = {"scipy.integrate.solve_ivp"}
+    it.run(fi)
+    ivp = [r for r in it.calls if r.callee == "scipy.integrate.solve_ivp" and r.depth == 0]
+    if not ivp:
+        ctx.unknown("C16.6", fi, fi.node, "FBG: integrator settings", "solve_ivp call not reached with a user callable as the profile")
+        return
+    seen = set()
+    for r in ivp:
+        kw = dict(r.kwargs)
+        ms, rt = kw.get("max_step"), kw.get("rtol")
+        key = (repr(ms), repr(rt))
+        if key in seen:
+            continue
+        seen.add(key)
+        def tight(v, limit):
+            if v is None:
+                return False
+            vals = [const_float(x) if isinstance(x, Form) else None for x in _alts(v)]
+            return bool(vals) and all(x is not None and 0 < x < limit for x in vals)
+        bounded = tight(ms, 1) or tight(rt, 1e-3)
+        ctx.check("C16.6", bounded, fi, r.node, f"FBG: integrator settings max_step = {ms!r}, rtol = {rt!r}"[:200],
+                  "the step is bounded below the unit span, or the tolerance is tighter than scipy's default: the integration is not left to the default step control",
+                  "solve_ivp can be left at its default step control (no max_step below the unit span and no rtol below 1e-3 on some path / for some alternative of the setting): the adaptive step "
+                  "grows where the profile is flat and a localised feature of a user callable is stepped over (Bragg reflectivity 0.260 instead of tanh^2(kL*integral) = 0.375 for 0.5+exp(-((z+0.125)/0.12)^2))")
+
+
 def rule_boundary_and_apply(ctx):
     pkg = ctx.pkg
     fi = pkg.func("devices.FBG")
@@ -195,18 +246,7 @@ def rule_boundary_and_apply(ctx):
     ctx.check("C16.1", ok_y0, fi, r.node, f"FBG: y0 = {y0!r}"[:200], "R(+1/2)=1, S(+1/2)=0 for every frequency", "initial state is not [ones(N), zeros(N)]: the reflection boundary condition S(+1/2)=0 is lost")
     fun = kw.get("fun")
     ctx.check("C16.1", isinstance(fun, FuncV) and fun.fi.name == "ode_system", fi, r.node, "FBG: integrates ode_system", "the checked system is the one integrated", "solve_ivp does not integrate ode_system")
-    # C16.6: an adaptive Runge-Kutta step is sized from the local error estimate alone; at scipy's default tolerance (rtol 1e-3)
-    # with no bound on the step it grows over the flat part of a user profile and a localised feature is stepped over.  The
-    # clause is the necessary condition only: the call is not left at those defaults - a step bound below the span, or a
-    # relative tolerance below the default, is given as a constant
-    ms, rt = kw.get("max_step"), kw.get("rtol")
-    msv = const_float(ms) if isinstance(ms, Form) else None
-    rtv = const_float(rt) if isinstance(rt, Form) else None
-    bounded = (msv is not None and 0 < msv < 1) or (rtv is not None and 0 < rtv < 1e-3)
-    ctx.check("C16.6", bounded, fi, r.node, f"FBG: integrator settings max_step = {ms!r}, rtol = {rt!r}"[:160],
-              "the step is bounded below the unit span, or the tolerance is tighter than scipy's default: the integration is not left to the default step control",
-              "solve_ivp is left at its default step control (no max_step below the unit span, no rtol below 1e-3): the adaptive step grows where the profile is flat and a "
-              "localised feature of a user callable is stepped over (Bragg reflectivity 0.260 instead of tanh^2(kL*integral) = 0.375 for 0.5+exp(-((z+0.125)/0.12)^2))")
+    rule_step_control(ctx)
     # detuning / coupling passed to the ODE: evaluated on the optical grid of the simulation, lambda = 2*pi*c/(w_centred + 2*pi*gv.f0)
     CC = Form.atom(("c", "scipy.constants.c"))
     wc = mk_fn("fftshift", [2 * PI * mk_fn("fftfreq", [n]) * S("gv.fs")])
